@@ -8,6 +8,7 @@ from .. import paths
 from ..core import FUNC, AnalysisError, call_attr, calls_in, const, dotted, is_const, kwarg, norm, slice_parts, text, walk_local
 
 EXPLANATION = [
+    'C20.cind-ranges: the gateway announces an indicator\'s values as (min-max) exactly when the set has max-min+1 elements; the hands-free side expands a-b to range(a, b+1).',
     'C20.credit-guard: one iteration of DLC.process_tx is explored path by path with the branch facts it has accumulated: bytes leave tx_buffer only on paths where `tx_credits > 0` is known, and exactly those paths spend exactly one credit; credit-only frames spend none.',
     'C20.bounds: every slice taken from tx_buffer plus the credit byte that precedes it is at most DLC.mtu; what is consumed is what was taken; DLC.mtu <= min(tx_max_frame_size, peer L2CAP MTU - frame overhead) with the overhead computed from RFCOMM_Frame.__bytes__.',
     'C20.pf-agreement: the P/F bit of a data frame is set under the very test that prepends the credit byte; the receiver strips exactly that byte under p_f == 1 and the frame codec excludes it from the length field.',
@@ -1028,7 +1029,45 @@ def negotiated_state(ctx):
         R.check('self.supported_audio_codecs = [AudioCodec(int(value)) for value in args]' in norm(bac), rule, f'{AG}._on_bac', 'codec list taken from the command', 'codec list not taken from AT+BAC', p.loc(bac))
 
 
+
+def cind_ranges(ctx):
+    """The value set an indicator announces in +CIND is the set the hands-free side reconstructs."""
+    from .. import sym
+    R, p = ctx.r, ctx.p
+    rule = 'C20.cind-ranges'
+    fn = p.find('bumble.hfp.AgIndicatorState.on_test_text')
+    if fn is None:
+        R.bad(rule, 'bumble.hfp.AgIndicatorState.on_test_text', 'anchor missing')
+        return
+    defs = {t.id: norm(n.value) for n in walk_local(fn) if isinstance(n, ast.Assign) for t in n.targets if isinstance(t, ast.Name)}
+    rng = [n for n in walk_local(fn) if isinstance(n, ast.Assign) and isinstance(n.value, ast.JoinedStr) and '-' in ''.join(v.value for v in n.value.values if isinstance(v, ast.Constant))]
+    ok = len(rng) == 1
+    detail = ''
+    if ok:
+        g = [t for t, pol in paths.flat_guards(rng[0]) if pol]
+        ok = len(g) == 1 and isinstance(g[0], ast.Compare) and isinstance(g[0].ops[0], ast.Eq)
+        if ok:
+            a, b = g[0].left, g[0].comparators[0]
+            if 'len(' not in norm(a):
+                a, b = b, a
+            lo = next((k for k, v in defs.items() if v == 'min(self.supported_values)'), None)
+            hi = next((k for k, v in defs.items() if v == 'max(self.supported_values)'), None)
+            ok = norm(a) == 'len(self.supported_values)' and lo and hi and sym.lin_eq(sym.lin(b), {hi: 1, lo: -1, '': 1})
+            detail = f'{norm(a)} == {norm(b)}'
+            # the text is "lo-hi"
+            parts = [norm(v.value) if isinstance(v, ast.FormattedValue) else v.value for v in rng[0].value.values]
+            ok = ok and parts == ['(', lo, '-', hi, ')']
+    R.check(ok, rule, 'bumble.hfp.AgIndicatorState.on_test_text | range form', 'the form (min-max) is used exactly when the set has max - min + 1 elements, i.e. is contiguous',
+            f'a value set is announced as the range (min-max) under `{detail}`, which is not "contiguous": the hands-free side reconstructs values the gateway does not support', p.loc(fn))
+    # the reader expands a-b inclusively
+    slc = p.find(f'{HF}.initiate_slc')
+    exp = [c for c in ast.walk(slc) if isinstance(c, ast.Call) and dotted(c.func) == 'range' and len(c.args) == 2] if slc is not None else []
+    ok = len(exp) == 1 and norm(exp[0].args[0]) == 'value_min' and sym.lin_eq(sym.lin(exp[0].args[1]), {'value_max': 1, '': 1})
+    R.check(ok, rule, f'{HF}.initiate_slc | range expansion', 'a-b is expanded to range(a, b + 1): both ends included', 'the hands-free side does not expand an announced range inclusively', p.loc(slc) if slc else '')
+
+
 RULES = [
+    ('C20.cind-ranges', cind_ranges),
     ('C20.credit-guard', credit_guard),
     ('C20.bounds', bounds),
     ('C20.pf-agreement', pf_agreement),
@@ -1072,4 +1111,7 @@ VARIANTS = [
     ('enabled flag ignored', 'bumble/hfp.py', "                    self.hf_indicators[indicator].enabled = enabled", "                    self.hf_indicators[indicator].enabled = True", 'fire', 'C20.negotiated-state'),
     ('benign: local rename in process_tx', 'bumble/rfcomm.py', "            # Update the tx credits\n", "            # Account for the tx credit\n", 'silent', ''),
     ('benign: equivalent threshold test', 'bumble/rfcomm.py', "        if self.rx_credits <= self.rx_credits_threshold:\n            return self.rx_max_credits - self.rx_credits\n\n        return 0", "        if self.rx_credits > self.rx_credits_threshold:\n            return 0\n\n        return self.rx_max_credits - self.rx_credits", 'silent', ''),
+    ('contiguity test off by one', 'bumble/hfp.py', "        if len(self.supported_values) == (max_value - min_value + 1):", "        if len(self.supported_values) == (max_value - min_value):", 'fire', 'C20.cind-ranges'),
+    ('benign: contiguity test rearranged', 'bumble/hfp.py', "        if len(self.supported_values) == (max_value - min_value + 1):", "        if 1 + max_value - min_value == len(self.supported_values):", 'silent', ''),
+    ('HF expands ranges exclusively', 'bumble/hfp.py', "range(value_min, value_max + 1)", "range(value_min, value_max)", 'fire', 'C20.cind-ranges'),
 ]
